@@ -589,6 +589,7 @@ class Engine:
         self.deadline = None
         self.max_recursion = 1      # how many activations of one function may be on the stack (bounded recursion)
         self.path_hook = None
+        self.drop_hook = None       # fn(eng, st, frame, place, type) called for MIR drop terminators (RefCell guards)
         self.cut_blocks = set()     # blocks of the explored function at which a second visit ends the path (segment cut)
         self.inline_cyclic = False  # bounded-loop mode: cyclic crate functions are executed too (max_visits per block)
         self.auto_inline_depth = 5
@@ -1361,6 +1362,13 @@ class Engine:
             frame.bb = term[1]
             return True
         if k == "drop":
+            if self.drop_hook is not None:
+                try:
+                    ty = self.place_ty(frame, term[1])
+                except Exception:
+                    ty = None
+                if ty:
+                    self.drop_hook(self, st, frame, term[1], ty)
             frame.bb = term[2]
             return True
         if k == "return":
